@@ -52,7 +52,6 @@ const Statement *Statement::execute(Context& ctx) const
 {
   bool trace = ctx.trace();
   BLOC_VERIF_POINT(BLOC_VP_STATEMENT, this);
-  _level = ctx.execLevel();
   if (trace) trace_pre(ctx);
   const Statement * next = doit(ctx);
   if (trace) trace_post(ctx);
